@@ -146,6 +146,39 @@ func derives(v ssa.Value, s FlowSpec, seen map[ssa.Value]bool, depth int) bool {
 		return derives(x.X, s, seen, depth+1)
 	case *ssa.IndexAddr:
 		return derives(x.X, s, seen, depth+1)
+	case *ssa.Alloc:
+		// an array/struct literal: the values stored into it or into its elements
+		var vals []ssa.Value
+		for _, ref := range *x.Referrers() {
+			switch r := ref.(type) {
+			case *ssa.Store:
+				if r.Addr == ssa.Value(x) {
+					vals = append(vals, r.Val)
+				}
+			case *ssa.IndexAddr:
+				for _, r2 := range *r.Referrers() {
+					if st, ok := r2.(*ssa.Store); ok && st.Addr == ssa.Value(r) {
+						vals = append(vals, st.Val)
+					}
+				}
+			case *ssa.FieldAddr:
+				for _, r2 := range *r.Referrers() {
+					if st, ok := r2.(*ssa.Store); ok && st.Addr == ssa.Value(r) {
+						vals = append(vals, st.Val)
+					}
+				}
+			}
+		}
+		if len(vals) == 0 {
+			return false
+		}
+		// for aggregate literals one derived element suffices (the aggregate contains it)
+		for _, e := range vals {
+			if derives(e, s, seen, depth+1) {
+				return true
+			}
+		}
+		return false
 	case *ssa.Call:
 		if s.Through != nil {
 			idxs := s.Through(x)
